@@ -81,6 +81,59 @@ Fixpoint p_walk (fuel : nat) (h : heap) (c : option addr) (stop : nat) (k : nat)
     end
   end.
 
+(** cstl_slist_pop_front(sl) as a function on the pointer state (the same
+    statements as the [PopFront] case of [p_step]); [None] = NULL *)
+Definition p_pop_front (p : pstate) (l : nat) (o : lobj) : res (pstate * option addr) :=
+  if addr_eqb (lt o) (Hd l) then Ok (p, None)               (* if (sl->t == &sl->h) return NULL *)
+  else match p_erase_after p l o (Hd l) with
+       | Ok (p', n) => Ok (p', Some n)
+       | Flt => Flt
+       end.
+
+(** cstl_slist_foreach(l, visit, ctx) with the visitor that moves the element
+    it is shown to the back of list [d]:
+
+      c = sl->h.n;
+      while (c != NULL && res == 0) {
+          n = c->n;                       <- saved before the visitor runs
+          res = visit(elem(c), ctx);      <- r = pop_front(l); bad += (r != e); push_back(d, e)
+          c = n;
+      }
+
+    The visitor is this model's own [p_pop_front] and [p_insert_after] (at
+    [d->t]) acting on the pointer state; the loop continues with the link
+    value read *before* them.  [fuel] bounds the iterations (exhaustion =
+    a loop that does not end = [Flt]). *)
+Fixpoint p_fmove_loop (fuel : nat) (p : pstate) (l d : nat) (c : option addr) (stop k : nat)
+         (acc : list nat) (bad : nat) : res (pstate * list nat * Z * nat) :=
+  match c with
+  | None => Ok (p, rev acc, 0%Z, bad)
+  | Some a =>
+    match fuel, elem_of a with
+    | S f, Some e =>
+      let n := nx p a in                                           (* n = c->n *)
+      match nth_error (objs p) l with
+      | None => Flt
+      | Some ol =>
+        match p_pop_front p l ol with                              (* visitor: pop_front(l) *)
+        | Flt => Flt
+        | Ok (p1, got) =>
+          let same := match got with Some g => addr_eqb g (Nd e) | None => false end in
+          let bad' := if same then bad else S bad in
+          match nth_error (objs p1) d with
+          | None => Flt
+          | Some od =>
+            let p2 := p_insert_after p1 d od (lt od) e in          (* push_back(d, e) *)
+            if (0 <? stop)%nat && Nat.eqb (S k) stop
+            then Ok (p2, rev (e :: acc), Z.of_nat stop, bad')
+            else p_fmove_loop f p2 l d n stop (S k) (e :: acc) bad'   (* c = n *)
+          end
+        end
+      end
+    | _, _ => Flt
+    end
+  end.
+
 (** is element [e] among the first [fuel] nodes of the chain starting at [c]? *)
 Fixpoint reachb (h : heap) (e : nat) (fuel : nat) (c : option addr) : bool :=
   match c, fuel with
@@ -273,6 +326,13 @@ Section PStep.
         | Ok (log, _) => Done (mkP (hupd (nx p) (Hd l) None) (upd (objs p) l (mkLO (Hd l) 0))) (zids log)
         | Flt => Fault
         end)
+    | FMove l d stop =>
+      if Nat.eqb l d then Precond else
+      with_obj p l (fun ol => with_obj p d (fun _ =>
+        match p_fmove_loop (S (N.to_nat (lcount ol))) p l d (nx p (Hd l)) stop 0 [] 0 with
+        | Ok (p', log, r, bad) => Done p' (r :: Z.of_nat bad :: zids log)
+        | Flt => Fault
+        end))
     end.
 End PStep.
 
